@@ -183,12 +183,106 @@ def _crash_writer(part, lo, step, reader):
         w.destroy()
 
 
+def _crash_writer_os(part, lo, step, reader):
+    """The same situation with the operating system doing the killing: the request that refreshes the cache runs
+    in a forked child whose file-size limit is k bytes (a full disk, a quota: write(2) fails at byte k whichever
+    way the file is written, whatever its name).  Afterwards the directory is listed as it is -- nothing stale,
+    nothing partial, no left-over scratch file among the entries."""
+    import resource
+    import signal
+
+    w = rig.World({"w": {"alpha.txt": b"A\n", "bravo.txt": b"B\n", "sub": {"x": b"x"}}}, handlers="default", cachetime=100000, tag="c11o")
+    try:
+        cpath = os.path.join(w.root, "w", CACHE)
+        req = rig.request(reader, "/w")
+        w.serve(*req)
+        with open(cpath, "rb") as f:
+            old = f.read()
+        os.rename(os.path.join(w.root, "w", "bravo.txt"), os.path.join(w.root, "w", "delta.txt"))
+        w.reconfigure(handlers="default", cachetime=0)
+        fresh = _norm(w.serve(*req).out)
+        w.reconfigure(handlers="default", cachetime=100000)
+        n = len(old)
+        names0 = set(os.listdir(os.path.join(w.root, "w")))
+        for k in range(lo, n + 40, step):
+            for stray in set(os.listdir(os.path.join(w.root, "w"))) - names0:
+                os.unlink(os.path.join(w.root, "w", stray))
+            with open(cpath, "wb") as f:
+                f.write(old)
+            os.utime(cpath, (1, 1))
+            pid = os.fork()
+            if pid == 0:
+                try:
+                    signal.signal(signal.SIGXFSZ, signal.SIG_IGN)
+                    resource.setrlimit(resource.RLIMIT_FSIZE, (k, k))
+                    w.serve(*req)
+                finally:
+                    os._exit(0)
+            os.waitpid(pid, 0)
+            r2 = w.serve(*req)
+            part.evaluations += 2
+            part.transitions += 2
+            part.state("crash-writer-os", reader, k)
+            bad = None
+            if r2.internal_error:
+                bad = ("error", "the request after a cache write cut at byte %d by the file-size limit: %s" % (k, r2.describe_error()))
+            elif _norm(r2.out) != fresh:
+                bad = ("stale-or-partial", "after a cache write cut at byte %d of ~%d by the file-size limit the directory lists as %r, it is %r (directory now holds %r)" % (
+                    k, n, _norm(r2.out)[:200], fresh[:200], sorted(os.listdir(os.path.join(w.root, "w")))))
+            part.outcome("crash-writer-os", reader, bad[0] if bad else "ok", k >= n)
+            if bad:
+                part.violation("crash-writer-os|r=%s|limit=%d|%s" % (reader, k, bad[0]), bad[1], {"kind": "crash-writer-os", "reader": reader, "k": k})
+    finally:
+        w.destroy()
+
+
+_ro = False
+_ro_patched = False
+
+
+def _patch_ro():
+    """Seam: the directory has become read-only for the server (ownership changed, read-only mount): creating,
+    rewriting and removing the cache file fail with EACCES; reading it still works."""
+    global _ro_patched
+    if _ro_patched:
+        return
+    import errno
+
+    from pygopherd.handlers.base import VFS_Real
+
+    o_open, o_unlink = VFS_Real.open, VFS_Real.unlink
+
+    def open_(self, selector, mode="r", *a, **k):
+        if _ro and type(self) is VFS_Real and selector.endswith(CACHE) and any(c in mode for c in "wax+"):
+            raise PermissionError(errno.EACCES, "Permission denied (read-only directory, injected)")
+        return o_open(self, selector, mode, *a, **k)
+
+    def unlink(self, selector):
+        if _ro and type(self) is VFS_Real:
+            raise PermissionError(errno.EACCES, "Permission denied (read-only directory, injected)")
+        return o_unlink(self, selector)
+
+    VFS_Real.open, VFS_Real.unlink = open_, unlink
+    _ro_patched = True
+
+
 def _shard(shard, seed, tier):
+    global _ro
     part = core.Partial()
     kind = shard[0]
     if kind == "crash-writer":
         _crash_writer(part, shard[1], shard[2], shard[3])
         return part
+    if kind == "crash-writer-os":
+        _crash_writer_os(part, shard[1], shard[2], shard[3])
+        return part
+    if kind == "dir-ro":
+        _patch_ro()
+        kind = "dir"
+        shard = ("dir",) + tuple(shard[1:])
+        ro_shard = True
+    else:
+        ro_shard = False
     env = _Env()
     try:
         if kind == "dir":
@@ -223,14 +317,18 @@ def _shard(shard, seed, tier):
                 ks = allk[lo::8]
             for k in ks:
                 content = blob[:k]
-                bad = _probe(env, d, reader, path, content, "cache of /%s written by %s cut at byte %d of %d, read by %s" % (d, writer, k, n, reader))
+                _ro = ro_shard
+                try:
+                    bad = _probe(env, d, reader, path, content, "cache of /%s written by %s cut at byte %d of %d, read by %s%s" % (d, writer, k, n, reader, " (directory read-only)" if ro_shard else ""))
+                finally:
+                    _ro = False
                 part.evaluations += 1
                 part.transitions += 1
                 part.state(d, writer, reader, k)
                 part.outcome(d, reader, bad[0] if bad else "ok", k == n)
                 if bad:
-                    part.violation("dir|%s|w=%s|r=%s|cut=%d/%d|%s" % (d, writer, reader, k, n, bad[0]), bad[1],
-                                   {"kind": "dir", "d": d, "writer": writer, "reader": reader, "cut": k})
+                    part.violation("dir%s|%s|w=%s|r=%s|cut=%d/%d|%s" % ("-ro" if ro_shard else "", d, writer, reader, k, n, bad[0]), bad[1],
+                                   {"kind": "dir", "d": d, "writer": writer, "reader": reader, "cut": k, "ro": ro_shard})
             if lo == 0:
                 for fill, name in ((b"\0" * n, "zero-filled"), (b"\xff" * n, "ff-filled"), (blob + b"\0", "one-extra-byte")):
                     if name == "one-extra-byte":
@@ -286,11 +384,23 @@ def replay(case):
     try:
         if case["kind"] == "dir":
             blob = env.make_cache(case["d"], case["writer"])
-            bad = _probe(env, case["d"], case["reader"], env.cache_path(case["d"]), blob[: case["cut"]], "replay")
+            global _ro
+            if case.get("ro"):
+                _patch_ro()
+                _ro = True
+            try:
+                bad = _probe(env, case["d"], case["reader"], env.cache_path(case["d"]), blob[: case["cut"]], "replay")
+            finally:
+                _ro = False
         elif case["kind"] == "dirfill":
             blob = env.make_cache(case["d"], case["writer"])
             fill = (b"\0" if case["fill"] == "zero-filled" else b"\xff") * len(blob)
             bad = _probe(env, case["d"], case["reader"], env.cache_path(case["d"]), fill, "replay")
+        elif case["kind"] == "crash-writer-os":
+            env.destroy()
+            p2 = core.Partial()
+            _crash_writer_os(p2, case["k"], 10 ** 9, case["reader"])
+            return (p2.violations[0][0], p2.violations[0][1]) if p2.violations else None
         elif case["kind"] == "crash-writer":
             env.destroy()
             p2 = core.Partial()
@@ -325,6 +435,9 @@ def run(ck):
         shards.append(("zip", ext, "gopher"))
     for j in range(8):
         shards.append(("crash-writer", j, 8, "gopher"))
+    for j in range(8):
+        shards.append(("crash-writer-os", j, 8, "gopher"))
+        shards.append(("dir-ro", "small", "gopher", "gopher", j, None, 8))
     if ck.tier == "thorough":
         for j in range(8):
             shards.append(("crash-writer", j, 8, "http"))
